@@ -82,8 +82,8 @@ def directed_argv(rng, c, nodes, kind=None):
     """an argv aimed at a node: its help, version, `help <path>`, a failing flag, a plain entry"""
     path, node = gen_cmd.pick(rng, nodes)
     pre = path_tokens(rng, path)
-    k = kind or gen_cmd.pick(rng, ["help", "help", "version", "helpsub", "helpsub", "bad", "badpos", "enter",
-                                    "enter", "helphelp", "midhelp", "shorth"])
+    k = kind or gen_cmd.pick(rng, ["help", "help", "version", "version", "helpsub", "helpsub", "bad", "badpos", "enter",
+                                    "enter", "helphelp", "midhelp", "shorth", "shorth"])
     if k == "help":
         toks = pre + [b"--help"]
     elif k == "shorth":
@@ -257,6 +257,8 @@ def canon_parse(items):
 
 
 def raw_kind(items):
+    if items and items[0] == "PANIC":
+        return "PANIC"
     return items[1] if items and items[0] == "err" else "ok"
 
 
@@ -305,6 +307,8 @@ def project(r):
     if sp is None:
         if r and r.startswith("PANIC"):
             return "PANIC"
+        if r and r.startswith("INVALID"):
+            return "INVALID"
         return r
     steps, fin = sp
     out = []
@@ -348,6 +352,9 @@ def make_oracle(stats):
         for st in steps:
             if st[0] == "parse":
                 stats["history_parse_outcome"][raw_kind(st[1])] += 1
+            # (0) a call that panics on the reused definition although it is fine on a fresh one
+            if st[1] and st[1][0] == "PANIC" and st[1][1:] == ["fine"]:
+                return "the call (%s) panics on the reused definition but not on a fresh one" % st[0]
         # (1) equal matches or an error of the same kind, whatever the build timing / history
         for k in ("fresh2", "cloned", "byval", "reused", "built"):
             a, b = fin["fresh"], fin[k]
@@ -376,6 +383,8 @@ def build2_oracle(case, impl):
         return None
     v = sx_parse("(" + impl + ")")
     first, second = v[0][1:], v[1][1:]
+    if second and second[0] == "PANIC":
+        return "build() twice: the second call panics"
     if sx_str(first[0]) != sx_str(second[0]):
         return "build() twice: observable state differs: %s vs %s" % (sx_str(first[0])[:300], sx_str(second[0])[:300])
     if len(first) > 1 and first[1] != second[1]:
